@@ -42,7 +42,7 @@ ASSUMPTIONS = [
   'rejected bundles (e.g. a value the column cannot accept) are labelled and not judged',
 ]
 BUDGET = {'quick': dict(examples=1600, shards=16, max_seconds=45),
-          'thorough': dict(examples=24000, shards=16, max_seconds=540)}
+          'thorough': dict(examples=18000, shards=16, max_seconds=1800)}
 SHRINK_BUDGET = {'quick': 150, 'thorough': 500}
 
 GROUPBYS = [['K'], ['K', 'L'], [], ['T'], ['K', 'T']]
